@@ -152,6 +152,9 @@ def build(ex, cfg, n=None, prefix="", x_kind="real", params_from=None):
         kw["g"] = par("g", 0, 1, False, True)
     if test == "kaplan_wald":
         kw["g"] = par("g", 0, 1)
+    for name in cfg.get("omit", []):      # optional arguments left to the code's own defaults
+        kw.pop(name, None)
+        inst.params.pop(name, None)
     args = dict(test=getattr(NM, test), u=u, N=N, t=t, random_order=cfg.get("ro", True), **kw)
     if kind == "estim":
         args["estim"] = getattr(NM, rule)
@@ -220,6 +223,8 @@ def real_instance(cfg, inputs, n=None):
         kw[k] = float(F(v)) if not isinstance(v, list) else v
     for k, v in cfg.get("fixed", {}).items():
         kw.setdefault(k, float(F(v)))
+    for k in cfg.get("omit", []):
+        kw.pop(k, None)
     if cfg["N"] == "inf":
         N = math.inf
     elif cfg["N"] == "sym":
